@@ -153,7 +153,7 @@ def ensure(variant, targets):
                 os.rename(c[-1], c[-1][:-4])
             sys.stderr.write("[vbuild] %s: compiled %d TUs in %.1fs\n" % (variant, len(jobs), time.time() - t0))
         for exe, allobjs in links:
-            cmd = [CXX] + flags + allobjs + ["-o", exe + ".tmp"] + (["-lcrypto"] if "upd_mc" in exe else [])
+            cmd = [CXX] + flags + allobjs + ["-o", exe + ".tmp"] + (["-lcrypto"] if "upd_mc" in exe else []) + (["-rdynamic", "-ldl"] if "gcthread_mc" in exe else [])
             _sh(cmd, None)
             os.rename(exe + ".tmp", exe)
         # prune: keep the 60 most recently used objects / 40 executables per variant
